@@ -25,7 +25,9 @@ struct Conf {
   bool grid_block;   // the grid is given by a grid { } block of the bias; the variables' own boundaries and widths differ from it
   bool no_integrate; // integrate off: no on-the-fly integrator object exists
   bool scaled;       // scaledBiasingForce with factors 0.5 (bins 0,1) and 2.0 (bins 2,3) read from a file; 1 outside the grid
+  bool hide_jac;
 };
+// (hide_jac: hideJacobian on - the Jacobian term is left out of the samples and a compensating force -kT dln|J|/dxi acts on the variable)
 static double scale_factor(Conf const &c, int bin) { return (!c.scaled || bin < 0) ? 1.0 : (bin < 2 ? 0.5 : 2.0); }
 
 static std::string conf_text(Conf const &c, std::string const &input_prefix = "")
@@ -44,6 +46,7 @@ static std::string conf_text(Conf const &c, std::string const &input_prefix = ""
   if (c.max_force > 0) s += " maxForce " + num(c.max_force) + (c.nd == 2 ? " " + num(c.max_force) : "") + "\n";
   if (c.step_zero) s += " stepZeroData on\n";
   if (c.no_integrate) s += " integrate off\n";
+  if (c.hide_jac) s += " hideJacobian on\n";
   if (c.scaled) s += " scaledBiasingForce on\n scaledBiasingForceFactorsGrid c04_factors.dat\n";
   if (input_prefix.size()) s += " inputPrefix " + input_prefix + "\n";
   if (c.grid_block) s += std::string(" grid {\n lowerBoundary 1.0") + (c.nd == 2 ? " 1.0" : "") + "\n upperBoundary 3.0" + (c.nd == 2 ? " 2.0" : "") +
@@ -161,12 +164,12 @@ static bool run_and_write(Conf const &c, int ss, std::vector<Letter> const &w, s
       if (s >= 1) {
         std::vector<double> f = sysforce(c, w[s - 1], s - 1);
         if (c.harmonic == 1) f[0] += prev_other[0];
-        if (c.T > 0) f[0] += KB * c.T * 2.0 / REG[w[s - 1].reg];
+        if (c.T > 0 && !c.hide_jac) f[0] += KB * c.T * 2.0 / REG[w[s - 1].reg];
         ref.add(ref.flat(val0(c, w[s - 1]), val1(s - 1)), f);
       }
     } else if (s >= 1) {
       std::vector<double> f = sysforce(c, w[s], s);
-      if (c.T > 0) f[0] += KB * c.T * 2.0 / REG[w[s].reg];
+      if (c.T > 0 && !c.hide_jac) f[0] += KB * c.T * 2.0 / REG[w[s].reg];
       ref.add(ref.flat(val0(c, w[s]), val1(s)), f);
     }
     if (c.harmonic) prev_other[0] = -0.6 * (REG[w[s].reg] - 1.4) / 0.25;
@@ -199,6 +202,7 @@ int main(int argc, char **argv)
       {"1d-grid-block-ramp-1-3-plus-harmonic", 1, false, 1, 3, true, 0, 1, 0, false, true},
       {"2d-grid-block", 2, false, 0, 2, true, 0, 0, 0, false, true},
       {"1d-integrate-off", 1, false, 0, 1, true, 0, 0, 0, false, false, true},
+      {"1d-jacobian-T300-hideJacobian", 1, false, 0, 1, true, 0, 0, 300.0, false, false, false, false, true},
       {"1d-scaledBiasingForce", 1, false, 0, 1, true, 0, 0, 0, false, false, false, true},
       {"1d-scaledBiasingForce-ramp-1-3", 1, false, 1, 3, true, 0, 0, 0, false, false, false, true},
   };
@@ -295,7 +299,7 @@ int main(int argc, char **argv)
                     Letter lp = word[s - 1];
                     std::vector<double> f = sysforce(c, lp, s - 1);
                     if (c.harmonic == 1) f[0] += prev_other[0];   // other biases' forces are part of the total force
-                    if (c.T > 0) f[0] += KB * c.T * 2.0 / REG[lp.reg];  // documented Jacobian term of a distance
+                    if (c.T > 0 && !c.hide_jac) f[0] += KB * c.T * 2.0 / REG[lp.reg];  // documented Jacobian term of a distance
                     ref.add(ref.flat(val0(c, lp), val1(s - 1)), f);
                   }
                 } else {
@@ -303,7 +307,7 @@ int main(int argc, char **argv)
                   // (or step 0, which is not eligible)
                   if (s >= 1 && !repeat) {
                     std::vector<double> f = sysforce(c, word[s], s);
-                    if (c.T > 0) f[0] += KB * c.T * 2.0 / REG[word[s].reg];
+                    if (c.T > 0 && !c.hide_jac) f[0] += KB * c.T * 2.0 / REG[word[s].reg];
                     ref.add(bin_now, f);
                   }
                 }
@@ -349,6 +353,7 @@ int main(int argc, char **argv)
                 // what the engine receives: ABF force (+ harmonic) on atom 2 along x
                 if (!failed) {
                   double fx = scale_factor(c, bin_now) * fb[0] + (c.harmonic ? -0.6 * (REG[word[s].reg] - 1.4) / 0.25 : 0.0);
+                  if (c.hide_jac) fx -= KB * c.T * 2.0 / REG[word[s].reg];  // the compensating force, whatever the bin
                   if (!close_rel(px->fapp[1].x, fx, std::max(1.0, std::fabs(fx)), mode >= 2 ? 1e-9 : 1e-12)) {
                     r.violation(std::string("C04:atomic-force-differs:") + c.name,
                                 det + ",\"step\":" + std::to_string(s) + ",\"force_x_atom2\":" + num(px->fapp[1].x) + ",\"expected\":" + num(fx) + "}");
